@@ -337,7 +337,7 @@ def real_pathrun(case, lib):
                         expect.append(flat.get(a, default if case["sym"] else 0))
                 if got != expect:
                     spec_fails.append({"env": env, "halmos": got, "flat": expect,
-                                       "initial_arrays": "all zero" if not default else f"{hex(default)} wherever the path has no emptiness axiom"})
+                                       "initial_arrays": "all zero" if not default else f"{hex(default)} everywhere (symbolic account)" if case["sym"] else f"{hex(default)} wherever the path has no emptiness axiom"})
     nk = len(reps)
     ops = case["ops"]
     dec = [decoded[repr(op[1])] for op in ops]
